@@ -661,36 +661,59 @@ Print Assumptions C03_histc_example_run.
     set-family interface (empty, base, singleton, subset0 / subset1 / change, union / intsec / diff,
     make_node), clone, drop, gc (roots: the handles AND the manager's tautology chain), add_vars (chain
     rebuilt), set_var_order (chain dropped and rebuilt) - from the empty ZBDD manager, for every operand
-    order [gt], every cache that only serves what was added ([zlossy]) and every reaction [cav] of the
-    cache to add_vars that drops at least the Restrict entries ([cav_ok]; see notes/HISTz.md for why). *)
+    order [gt] and every cache that only serves what was added ([zlossy]).  The apply cache is kept by
+    add_vars; the algorithms access it through [zcgetN n] / [zcaddN n] (n = current number of levels):
+    Restrict entries are keyed by the number of levels (notes/HISTz.md). *)
 From Coq Require Import Bool List NArith PArith FMapPositive.
 From OxiVerif Require Import DD.Sem DD.Build DD.Apply DD.ConfigApply DD.FamSpec DD.ZbddOps DD.ZbddOpsProofs DD.ZbddBool
   DD.ZbddBoolProofs DD.ZbddEvalProofs Mgr.LevelSwapZ Mgr.LevelSwapZProofs Mgr.HistoryExamples
-  Mgr.HistoryZ Mgr.HistoryZBase Mgr.HistoryZFam Mgr.HistoryZProofs Mgr.HistoryZThms Mgr.HistoryZSpec Mgr.HistoryZTie
+  Mgr.HistoryZ Mgr.HistoryZBase Mgr.HistoryZCache Mgr.HistoryZFam Mgr.HistoryZProofs Mgr.HistoryZThms Mgr.HistoryZSpec Mgr.HistoryZTie
   Mgr.HistoryZExamples.
 
 (* what "reachable" means: the state after a history of well-formed requests from the empty ZBDD manager *)
 Theorem C03_histz_reach_unfold :
   forall (gt : ref -> ref -> bool) (C : Type) (cget : C -> N -> list ref -> list nat -> option ref)
-  (cadd : C -> N -> list ref -> list nat -> ref -> C) (cempty : C) (cav : C -> C) (n : nat) (st : hstate_z C),
-  hreach_z gt C cget cadd cempty cav n st <->
-  exists ops, zhops_pre gt C cget cadd cempty cav (hinit_z C cempty n) ops /\
-  hrun_z gt C cget cadd cempty cav (hinit_z C cempty n) ops = Some st.
-Proof. exact (fun gt C cget cadd cempty cav n st => iff_refl _). Qed.
+  (cadd : C -> N -> list ref -> list nat -> ref -> C) (cempty : C) (n : nat) (st : hstate_z C),
+  hreach_z gt C cget cadd cempty n st <->
+  exists ops, zhops_pre gt C cget cadd cempty (hinit_z C cempty n) ops /\
+  hrun_z gt C cget cadd cempty (hinit_z C cempty n) ops = Some st.
+Proof. exact (fun gt C cget cadd cempty n st => iff_refl _). Qed.
 Print Assumptions C03_histz_reach_unfold.
 
-(* the hypothesis on the cache across add_vars: nothing new is served, and no Restrict entry *)
-Theorem C03_histz_cav_ok_unfold :
-  forall (C : Type) (cget : C -> N -> list ref -> list nat -> option ref) (cav : C -> C),
-  cav_ok C cget cav <->
-  (forall c k a m r, cget (cav c) k a m = Some r -> cget c k a m = Some r /\ k <> zcode_restrict).
-Proof. exact (fun C cget cav => iff_refl _). Qed.
-Print Assumptions C03_histz_cav_ok_unfold.
+(* the cache as a manager with n levels accesses it: Restrict entries carry n as last numeric operand, every other code is untouched *)
+Theorem C03_histz_cache_view :
+  forall (C : Type) (cget : C -> N -> list ref -> list nat -> option ref)
+  (cadd : C -> N -> list ref -> list nat -> ref -> C) (n : nat) (c : C) (code : N) (args : list ref)
+  (nums : list nat) (r : ref),
+  zcgetN C cget n c zcode_restrict args nums = cget c zcode_restrict args (nums ++ n :: nil) /\
+  zcaddN C cadd n c zcode_restrict args nums r = cadd c zcode_restrict args (nums ++ n :: nil) r /\
+  (code <> zcode_restrict ->
+  zcgetN C cget n c code args nums = cget c code args nums /\ zcaddN C cadd n c code args nums r = cadd c code args nums r).
+Proof. exact zkeyN_spec. Qed.
+Print Assumptions C03_histz_cache_view.
 
-(* the invariant that holds whenever no operation is in progress: well-formed ZBDD table, complete tautology chain, valid cache *)
+Theorem C03_histz_cache_view_lossy :
+  forall (C : Type) (cget : C -> N -> list ref -> list nat -> option ref)
+  (cadd : C -> N -> list ref -> list nat -> ref -> C),
+  zlossy C cget cadd -> forall n : nat, zlossy C (zcgetN C cget n) (zcaddN C cadd n).
+Proof. exact zlossyN. Qed.
+Print Assumptions C03_histz_cache_view_lossy.
+
+(* no Restrict entry is keyed with a number of levels the manager has not reached *)
+Theorem C03_histz_nofuture_unfold :
+  forall (C : Type) (cget : C -> N -> list ref -> list nat -> option ref) (n : nat) (c : C),
+  znofuture C cget n c <-> (forall a m n' r, cget c zcode_restrict a (m ++ n' :: nil) = Some r -> n' <= n).
+Proof. exact (fun C cget n c => iff_refl _). Qed.
+Print Assumptions C03_histz_nofuture_unfold.
+
+(* the invariant that holds whenever no operation is in progress: well-formed ZBDD table, complete tautology chain, valid cache (as seen with the current number of levels), no Restrict entry of a future number of levels *)
 Theorem C03_histz_inv_unfold :
   forall (C : Type) (cget : C -> N -> list ref -> list nat -> option ref) (st : hstate_z C),
-  HInvZ C cget st <-> ZbddOK (hz_s C st) /\ ZChainOK (hz_s C st) /\ ZCacheOKB C cget (hz_s C st) (hz_c C st).
+  HInvZ C cget st <->
+  ZbddOK (hz_s C st) /\
+  ZChainOK (hz_s C st) /\
+  ZCacheOKB C (zcgetN C cget (nlevels (hz_s C st))) (hz_s C st) (hz_c C st) /\
+  znofuture C cget (nlevels (hz_s C st)) (hz_c C st).
 Proof. exact hinvz_unfold. Qed.
 Print Assumptions C03_histz_inv_unfold.
 
@@ -708,13 +731,11 @@ Theorem C03_histz_step :
   zlossy C cget cadd ->
   forall cempty : C,
   (forall (k : N) (a : list ref) (m : list nat), cget cempty k a m = None) ->
-  forall cav : C -> C,
-  cav_ok C cget cav ->
   forall (st : hstate_z C) (o : zhop),
   HInvZ C cget st ->
   zhop_pre C st o ->
   exists st' : hstate_z C,
-  hstep_z gt C cget cadd cempty cav st o = Some st' /\ HInvZ C cget st' /\ hframe_z C st o st' /\ hpost_z C st o st'.
+  hstep_z gt C cget cadd cempty st o = Some st' /\ HInvZ C cget st' /\ hframe_z C st o st' /\ hpost_z C st o st'.
 Proof. exact hstep_z_ok. Qed.
 Print Assumptions C03_histz_step.
 
@@ -725,12 +746,10 @@ Theorem C03_histz_run_ok :
   zlossy C cget cadd ->
   forall cempty : C,
   (forall (k : N) (a : list ref) (m : list nat), cget cempty k a m = None) ->
-  forall cav : C -> C,
-  cav_ok C cget cav ->
   forall (ops : list zhop) (st : hstate_z C),
   HInvZ C cget st ->
-  zhops_pre gt C cget cadd cempty cav st ops ->
-  exists st' : hstate_z C, hrun_z gt C cget cadd cempty cav st ops = Some st' /\ HInvZ C cget st'.
+  zhops_pre gt C cget cadd cempty st ops ->
+  exists st' : hstate_z C, hrun_z gt C cget cadd cempty st ops = Some st' /\ HInvZ C cget st'.
 Proof. exact hrun_z_ok. Qed.
 Print Assumptions C03_histz_run_ok.
 
@@ -741,14 +760,12 @@ Theorem C03_histz_never_stuck :
   zlossy C cget cadd ->
   forall cempty : C,
   (forall (k : N) (a : list ref) (m : list nat), cget cempty k a m = None) ->
-  forall cav : C -> C,
-  cav_ok C cget cav ->
   forall (n : nat) (st : hstate_z C) (o : zhop),
-  hreach_z gt C cget cadd cempty cav n st ->
+  hreach_z gt C cget cadd cempty n st ->
   zhop_pre C st o ->
   exists st' : hstate_z C,
-  hstep_z gt C cget cadd cempty cav st o = Some st' /\
-  hreach_z gt C cget cadd cempty cav n st' /\ hframe_z C st o st' /\ hpost_z C st o st'.
+  hstep_z gt C cget cadd cempty st o = Some st' /\
+  hreach_z gt C cget cadd cempty n st' /\ hframe_z C st o st' /\ hpost_z C st o st'.
 Proof. exact histz_progress. Qed.
 Print Assumptions C03_histz_never_stuck.
 
@@ -759,10 +776,8 @@ Theorem C03_histz_wf :
   zlossy C cget cadd ->
   forall cempty : C,
   (forall (k : N) (a : list ref) (m : list nat), cget cempty k a m = None) ->
-  forall cav : C -> C,
-  cav_ok C cget cav ->
   forall (n : nat) (st : hstate_z C),
-  hreach_z gt C cget cadd cempty cav n st ->
+  hreach_z gt C cget cadd cempty n st ->
   wf_b (hz_s C st) = true /\ zbdd_ok_b (hz_s C st) = true /\ zchain_ok_b (hz_s C st) = true.
 Proof. exact histz_wf. Qed.
 Print Assumptions C03_histz_wf.
@@ -787,12 +802,10 @@ Theorem C03_histz_run_checked :
   zlossy C cget cadd ->
   forall cempty : C,
   (forall (k : N) (a : list ref) (m : list nat), cget cempty k a m = None) ->
-  forall cav : C -> C,
-  cav_ok C cget cav ->
   forall (n : nat) (ops : list zhop),
-  zhops_pre_b gt C cget cadd cempty cav (hinit_z C cempty n) ops = true ->
+  zhops_pre_b gt C cget cadd cempty (hinit_z C cempty n) ops = true ->
   exists st : hstate_z C,
-  hrun_z gt C cget cadd cempty cav (hinit_z C cempty n) ops = Some st /\ hreach_z gt C cget cadd cempty cav n st.
+  hrun_z gt C cget cadd cempty (hinit_z C cempty n) ops = Some st /\ hreach_z gt C cget cadd cempty n st.
 Proof. exact hrun_z_checked. Qed.
 Print Assumptions C03_histz_run_checked.
 
@@ -803,8 +816,8 @@ Proof. exact exz_ops_cover. Qed.
 Print Assumptions C03_histz_example_cover.
 
 Theorem C03_histz_example_run :
-  zhops_pre_b zgtA zacache zac_get zac_add nil zcavA (hinit_z zacache nil 3) exz_ops = true /\
-  hrun_z zgtA zacache zac_get zac_add nil zcavA (hinit_z zacache nil 3) exz_ops = Some exz_stA /\
+  zhops_pre_b zgtA zacache zac_get zac_add nil (hinit_z zacache nil 3) exz_ops = true /\
+  hrun_z zgtA zacache zac_get zac_add nil (hinit_z zacache nil 3) exz_ops = Some exz_stA /\
   PositiveMap.cardinal (s_nodes (hz_s zacache exz_stA)) = 39 /\
   s_l2v (hz_s zacache exz_stA) = (2 :: 0 :: 1 :: 3 :: nil) /\
   wf_b (hz_s zacache exz_stA) = true /\ zbdd_ok_b (hz_s zacache exz_stA) = true /\
